@@ -48,6 +48,15 @@ def workloads(thorough):
         ("parallel3", [R(1), R(2), R(3)], dict(phases=[["r1", "r2", "r3"]], close="end")),
         ("serial2race", [R(1), R(2)], dict(phases=[["r1"], ["r2"]], close="race")),
         ("mixed_err", [R(1, beh="err"), R(2), R(3, beh="panic")], dict(phases=[["r1", "r2"], ["r3"]], close="end")),
+        # an Execute that names no step: the server's step-fatal error carries no run ID and goes to every pending call
+        ("nostep_par", [R(1), R(2, beh="nostep"), R(3)], dict(phases=[["r1", "r2"], ["r3"]], close="end")),
+        ("nostep_alone", [R(1, beh="nostep"), R(2)], dict(phases=[["r1"], ["r2"]], close="end")),
+        # two callers use one run ID at the same time (both with a signal channel): one is refused as a duplicate, the
+        # other runs; afterwards Close has to return
+        ("dup_sig", [R(1, sig=True), dict(id="r1d", **{"as": "r1"}, dup=True, beh="ok", sig=True, badsig=False), R(2)],
+         dict(phases=[["r1", "r1d"], ["r2"]], close="end")),
+        ("dup_plain", [R(1), dict(id="r1d", **{"as": "r1"}, dup=True, beh="ok", sig=False, badsig=False), R(2)],
+         dict(phases=[["r1", "r1d"], ["r2"]], close="race")),
     ]
     if thorough:
         w += [
@@ -59,9 +68,11 @@ def workloads(thorough):
 
 
 def cfg_key(runs):
-    sig = tuple(sorted(r["id"] for r in runs if r.get("sig")))
-    bad = tuple(sorted(r["id"] for r in runs if r.get("badsig")))
-    return sig, bad
+    rid = lambda r: r.get("as") or r["id"]
+    sig = tuple(sorted(set(rid(r) for r in runs if r.get("sig"))))
+    bad = tuple(sorted(set(rid(r) for r in runs if r.get("badsig"))))
+    nostep = tuple(sorted(set(rid(r) for r in runs if r.get("beh") == "nostep")))
+    return (sig, bad, nostep) if nostep else (sig, bad)
 
 
 def judge_session(ctx, sc, rr, model_res=None, what="delay"):
@@ -81,6 +92,11 @@ def judge_session(ctx, sc, rr, model_res=None, what="delay"):
     for rid, e in res["results"].items():
         if e["returns"] > 1:
             ctx.violation(dict(kind="returned_twice"), dict(scenario=sc, result=res["results"]))
+    for r in sc.get("runs", []):
+        if r.get("dup") and not res.get("stuck") and r["id"] in res["results"] and r["as"] in res["results"]:
+            pair = sorted([res["results"][r["id"]]["st"], res["results"][r["as"]]["st"]])
+            if pair.count("dup") != 1:
+                ctx.violation(dict(kind="duplicate_run_id", outcome="/".join(pair)), dict(scenario=sc, result=res["results"]))
     if res.get("server_stalled"):
         ctx.extra["server_stalled_sessions"] = ctx.extra.get("server_stalled_sessions", 0) + 1
         ctx.note_drift("server had not returned when the client was finished (blocked writing a message nobody reads; "
@@ -112,6 +128,7 @@ def run(ctx):
     mc = []
     mc.append(("serial2", dict(Runs="R2", Serial="TRUE", StepBeh="BehOkErr", WithClose="TRUE")))
     mc.append(("conc2sig", dict(Runs="R2", StepBeh="BehOkErr", SigRuns="R1", EmitRuns="R1", WithClose="TRUE")))
+    mc.append(("conc2nostep", dict(Runs="R2", StepBeh="BehOkErr", NoStepRuns="R1", WithClose="TRUE")))
     if thorough:
         mc.append(("serial3", dict(Runs="R3", Serial="TRUE", StepBeh="BehOk", WithClose="TRUE")))
         mc.append(("conc3", dict(Runs="R3", StepBeh="BehOk", WithClose="FALSE")))
@@ -125,7 +142,8 @@ def run(ctx):
         if r.violated:
             acts = A.parse_cex(r.out)
             beh = A.behaviours_of(acts)
-            runs = [dict(id=x, beh=beh.get(x, "ok"), sig=x in A.SET_RUNS[consts.get("SigRuns", "None")],
+            runs = [dict(id=x, beh="nostep" if x in A.SET_RUNS[consts.get("NoStepRuns", "None")] else beh.get(x, "ok"),
+                         sig=x in A.SET_RUNS[consts.get("SigRuns", "None")],
                          badsig=x in A.SET_RUNS[consts.get("BadSigRuns", "None")]) for x in A.SET_RUNS[consts["Runs"]]]
             cex_scenarios.append((name, r.violated, dict(id="cex-" + name, mode="replay", cap=int(consts.get("Cap", 0)),
                                                           runs=runs, schedule=acts)))
@@ -164,6 +182,7 @@ def run(ctx):
     for name, consts, sig, bad in [
         ("sim_serial3", dict(Runs="R3", Serial="TRUE", StepBeh="BehAll", WithClose="TRUE"), [], []),
         ("sim_conc2sig", dict(Runs="R2", StepBeh="BehAll", SigRuns="R2", BadSigRuns="R1", WithClose="TRUE"), ["r1", "r2"], ["r1"]),
+        ("sim_conc3nostep", dict(Runs="R3", StepBeh="BehOkErr", NoStepRuns="R1", WithClose="TRUE"), [], []),
     ]:
         cfg = A.mc_cfg(os.path.join(ctx.tmp, "c06_%s.cfg" % name), consts, invariants=INVS)
         d = os.path.join(ctx.tmp, name)
@@ -173,7 +192,8 @@ def run(ctx):
         for f in sorted(glob.glob(os.path.join(d, "b_*"))):
             acts, final = A.parse_sim_file(f)
             beh = A.behaviours_of(acts)
-            runs = [dict(id=x, beh=beh.get(x, "ok"), sig=x in sig, badsig=x in bad) for x in A.SET_RUNS[consts["Runs"]]]
+            runs = [dict(id=x, beh="nostep" if x in A.SET_RUNS[consts.get("NoStepRuns", "None")] else beh.get(x, "ok"),
+                         sig=x in sig, badsig=x in bad) for x in A.SET_RUNS[consts["Runs"]]]
             sims.append((dict(id="%s/%s" % (name, os.path.basename(f)), mode="replay", cap=0, runs=runs, schedule=acts),
                          final, sig, bad))
     res = A.run_driver(ctx, [s for s, _, _, _ in sims])
@@ -193,7 +213,7 @@ def run(ctx):
             want = "ok" if ('%s |-> [x |-> "%s", st |-> "ok"]' % (rid, rid)) in mres.replace("\n", " ") else None
             if want == "ok" and not (e["st"] == "ok" and e["token_ok"]):
                 ctx.violation(dict(kind="wrong_result", model="ok", code=e["st"]), dict(scenario=sc, results=out["results"]))
-        sessions.setdefault((tuple(sig), tuple(bad)), []).append((sc["id"], out["events"]))
+        sessions.setdefault(cfg_key(sc["runs"]), []).append((sc["id"], out["events"]))
     ctx.sample(dict(kind="replayed behaviour", schedule=schedule_sig(sims[0][0]["schedule"])[:25]))
     # ---------------------------------------------------------------- 3. code -> spec: delay exploration
     scen = []
@@ -215,7 +235,7 @@ def run(ctx):
                               workload=sc["workload"], delay_key=key, delay_nth=seen[key]))
     if not thorough:
         # quick tier: every gate occurrence of the first four workloads
-        delay = [d for d in delay if d["id"].split("/")[1] in ("serial3", "serial2sig", "serial2race", "parallel3")]
+        delay = [d for d in delay if d["id"].split("/")[1] in ("serial3", "serial2sig", "serial2race", "parallel3", "nostep_par", "dup_sig")]
     else:
         # thorough tier: additionally pairs of held gate occurrences (i, j > i) per workload, sampled by the seed
         import random
@@ -324,9 +344,11 @@ def run(ctx):
     ctx.extra["delay_gate_held"] = hit
     ctx.sample(dict(kind="delay scenario", id=delay[0]["id"] if delay else None))
     # ---------------------------------------------------------------- trace validation
-    for (sig, bad), sess in sorted(sessions.items()):
+    for key, sess in sorted(sessions.items()):
+        sig, bad = key[0], key[1]
+        nostep = key[2] if len(key) > 2 else ()
         runs_all = ["r1", "r2", "r3"]
-        ok, info = A.validate(ctx, sess, runs_all, 0, list(sig), list(bad))
+        ok, info = A.validate(ctx, sess, runs_all, 0, list(sig), list(bad), nostep=list(nostep))
         if ok:
             ctx.traces += len(sess)
         else:
